@@ -377,10 +377,10 @@ func mutationSelfTest(self, repo, verif, prop string, obs []kit.Ob, seed int) ma
 	sort.Strings(files)
 	var ms []mutant
 	for _, f := range files {
-		ms = append(ms, genMutants(f, anchors[f], 10)...)
+		ms = append(ms, genMutants(f, anchors[f], 4)...)
 	}
 	// cap the total, deterministically (rotated by the seed)
-	const maxMutants = 120
+	const maxMutants = 24
 	if len(ms) > maxMutants {
 		step := float64(len(ms)) / float64(maxMutants)
 		var kept []mutant
@@ -393,7 +393,7 @@ func mutationSelfTest(self, repo, verif, prop string, obs []kit.Ob, seed int) ma
 		}
 		ms = kept
 	}
-	res := runMutants(self, repo, verif, prop, baselineBad, ms, 6)
+	res := runMutants(self, repo, verif, prop, baselineBad, ms, 8)
 	killed, survived, discarded := 0, 0, 0
 	byOp := map[string][2]int{}
 	var survivors, samples []mutantResult
